@@ -25,7 +25,7 @@ func load(r *rt.Runtime) (rt.Value, func()) {
 		rt.ComplyCpuSafe|rt.ComplyMemSafe|rt.ComplyTimeSafe|rt.ComplyIoSafe,
 
 		r.SetEnvGoFunc(pkg, "concat", concat, 4, false),
-		r.SetEnvGoFunc(pkg, "insert", insert, 3, false),
+		r.SetEnvGoFunc(pkg, "insert", insert, 3, true),
 		r.SetEnvGoFunc(pkg, "move", move, 5, false),
 		r.SetEnvGoFunc(pkg, "pack", pack, 0, true),
 		r.SetEnvGoFunc(pkg, "remove", remove, 2, false),
@@ -123,6 +123,9 @@ func errInvalidConcatValue(v rt.Value, i int64) error {
 func insert(t *rt.Thread, c *rt.GoCont) (rt.Cont, error) {
 	if err := c.CheckNArgs(2); err != nil {
 		return nil, err
+	}
+	if len(c.Etc()) > 0 {
+		return nil, errors.New("wrong number of arguments to 'insert'")
 	}
 	_, err := c.TableArg(0)
 	if err != nil {
